@@ -58,6 +58,9 @@ def hexDigit (n : Nat) : Char :=
 def toHex (bs : Bytes) : String :=
   String.ofList (bs.flatMap fun b => [hexDigit (b.toNat / 16), hexDigit (b.toNat % 16)])
 
+/-- protocol form: `-` for the empty string -/
+def hexs (bs : Bytes) : String := if bs.isEmpty then "-" else toHex bs
+
 def hexVal (c : Char) : Option Nat :=
   if '0' ≤ c ∧ c ≤ '9' then some (c.toNat - 48)
   else if 'a' ≤ c ∧ c ≤ 'f' then some (c.toNat - 87)
